@@ -171,8 +171,9 @@ static uintptr_t bufferRef(MPT_INTERFACE(metatype) *mt)
 	(void) mt;
 	return 0;
 }
-static MPT_INTERFACE(metatype) *bufferCopy(MPT_INTERFACE(metatype) *(*copy)(const MPT_STRUCT(array) *), const MPT_STRUCT(slice) *sl)
+static MPT_INTERFACE(metatype) *bufferCopy(MPT_INTERFACE(metatype) *(*copy)(const MPT_STRUCT(array) *), const MPT_STRUCT(metaBuffer) *from)
 {
+	const MPT_STRUCT(slice) *sl = &from->s;
 	MPT_STRUCT(metaBuffer) *ptr;
 	MPT_INTERFACE(metatype) *res;
 	if (!(res = copy(&sl->_a))) {
@@ -181,8 +182,9 @@ static MPT_INTERFACE(metatype) *bufferCopy(MPT_INTERFACE(metatype) *(*copy)(cons
 	ptr = (void *) res;
 	ptr->s._len = sl->_len;
 	ptr->s._off = sl->_off;
-	/* text position follows element offset */
-	if (ptr->str) {
+	/* text position follows element offset (terminated text elements only) */
+	ptr->str = 0;
+	if (from->str) {
 		const MPT_STRUCT(buffer) *buf = ptr->s._a._buf;
 		ptr->str = buf ? ((const char *) (buf + 1)) + ptr->s._off : 0;
 	}
@@ -191,7 +193,7 @@ static MPT_INTERFACE(metatype) *bufferCopy(MPT_INTERFACE(metatype) *(*copy)(cons
 static MPT_INTERFACE(metatype) *bufferClone(const MPT_INTERFACE(metatype) *mt)
 {
 	const MPT_STRUCT(metaBuffer) *m = (void *) mt;
-	return bufferCopy(mpt_meta_buffer, &m->s);
+	return bufferCopy(mpt_meta_buffer, m);
 }
 
 /*!
@@ -295,7 +297,7 @@ static int bufferConvArgs(MPT_INTERFACE(convertable) *val, MPT_TYPE(type) type, 
 static MPT_INTERFACE(metatype) *bufferCloneArgs(const MPT_INTERFACE(metatype) *mt)
 {
 	const MPT_STRUCT(metaBuffer) *m = (void *) mt;
-	return bufferCopy(mpt_meta_arguments, &m->s);
+	return bufferCopy(mpt_meta_arguments, m);
 }
 /*!
  * \ingroup mptArray
